@@ -10,6 +10,15 @@
 (* inserted; v is the value.  All operators on sequences are pure and      *)
 (* prefixed M so that LinkedSet.tla (implementation layer) and             *)
 (* TraceOrderedMap.tla (trace validation) re-use them.                     *)
+(*                                                                         *)
+(* Domain of names: the model never looks inside a name, so a name stands  *)
+(* for ANY legal field name - US-ASCII 33..126 without the colon, not      *)
+(* starting with the comment character or a hyphen, of any length >= 1     *)
+(* (a single letter, whose two cases are its spellings, included).  No     *)
+(* action, DumpParse and the parsed start states included, may depend on   *)
+(* the shape of the name: the binding draws the shape per history          *)
+(* (harness/props/c09.py, name_pool) and the traces carry the spellings    *)
+(* verbatim.                                                               *)
 (***************************************************************************)
 EXTENDS Naturals, Sequences, FiniteSets, SequencesExt, TLC, Json
 
